@@ -35,6 +35,28 @@ def lemmas():
                     'append', 'extend', 'insert', 'pop', 'remove', 'clear',
                     'sort', 'reverse'):
             stores.append(n)
+    # the collections are rotated IN PLACE: the rotation state of one
+    # language (and of one kind of collection) must not be the state of
+    # another one -- no list object is shared between the language settings
+    # of the real Parameters object
+    from contracts import tokmodel as tm
+    p = tm.real_parms()
+    seen, shared = {}, []
+    for lang, ls in sorted(p.parser_lang_settings.items()):
+        for attr, val in sorted(vars(ls).items()):
+            if isinstance(val, list):
+                if id(val) in seen:
+                    l0, a0 = seen[id(val)]
+                    # by design a `_vowel` variant that is not given is the
+                    # collection itself (same language, same kind)
+                    same_kind = l0 == lang and (
+                        a0 + '_vowel' == attr or attr + '_vowel' == a0)
+                    if not same_kind:
+                        shared.append(((l0, a0), (lang, attr)))
+                else:
+                    seen[id(val)] = (lang, attr)
+    yield ('rotation:collections-of-languages-are-distinct-objects',
+           not shared, 'shared list objects: %r' % (shared[:3],))
     yield ('rotation:store-to-repls-found', len(stores) >= 1,
            '%d statements' % len(stores), False)
     for n in stores:
@@ -56,6 +78,64 @@ def lemmas():
         yield ('rotation:store-rotates-left-by-one@%d' % n.lineno, ok,
                '`%s`: %s' % (ast.unparse(n), shown))
 
+
+def inline_small_documents(seed):
+    """the sentence of the property on enumerated small documents (the
+    deductive part does not decide order / content of the placeholder
+    collection across a document): up to 4 inline formulas from a catalogue
+    of bodies, separated by words, languages en/de/ru; expected: exactly one
+    placeholder per formula, the next of the collection each time
+    (cyclically), final . , ; : kept, a blank where the formula starts /
+    ends with maths space, no character of the formula source"""
+    import itertools
+    from pyvc import replay as _r
+    t2t = _r.real_module('yalafi.tex2txt')
+    parameters = _r.real_module('yalafi.parameters')
+    # body -> (leading blank, punctuation, trailing blank)
+    bodies = [('x', '', '', ''), ('x+y', '', '', ''), ('=', '', '', ''),
+              ('a,', '', ',', ''), ('b.', '', '.', ''),
+              ('\\alpha_1^2', '', '', ''), ('\\,x', ' ', '', ''),
+              ('x\\,', '', '', ' '), ('\\frac{a}{b};', '', ';', ''),
+              ('\\unknownmacro{z}:', '', ':', '')]
+    n, fails = 0, []
+    for lang in ('en', 'de', 'ru'):
+        coll = list(parameters.Parameters(lang).lang_context
+                    .math_repl_inline)
+        for ln in range(1, 5):
+            for combo in itertools.product(range(len(bodies)), repeat=ln):
+                if ln >= 3 and (sum(combo) + seed + ln) % (7 if ln == 3
+                                                           else 60):
+                    continue
+                src = 'W'
+                want = 'W'
+                for k, i in enumerate(combo):
+                    b, lead, punct, trail = bodies[i]
+                    open_, close = ('$', '$') if k % 2 == 0 else \
+                        ('\\(', '\\)')
+                    src += ' ' + open_ + b + close + ' w'
+                    want += ' ' + lead + coll[(k + 1) % len(coll)] + \
+                        punct + trail + ' w'
+                n += 1
+                try:
+                    got = t2t.tex2txt(src, t2t.Options(lang=lang))[0]
+                except Exception as e:      # noqa
+                    got = 'exception %r' % (e,)
+                if got != want:
+                    fails.append({'lang': lang, 'input': src, 'got': got,
+                                  'expected': want})
+                    if len(fails) >= 3:
+                        break
+            if len(fails) >= 3:
+                break
+        if len(fails) >= 3:
+            break
+    return {'name': 'inline-formulas-on-small-documents', 'bounded': True,
+            'bound': '3 languages x all sequences of 1-2 formulas, a 7th of '
+                     'those of 3 and a 60th of those of 4, over 10 bodies',
+            'evaluations': n, 'failures': fails}
+
+
+QUICK_BOUNDED = [inline_small_documents]
 
 TRUSTED = cm.TRUSTED_CORE
 ASSUMPTIONS = cm.ASSUME_CORE + ['known finding F15 applies to expand_math_section']
